@@ -147,7 +147,9 @@ pub fn run_scenario(sc: &Scenario, twin: bool) -> ExecOut {
     {
         let mut b = ctx.beh.lock().unwrap();
         for (id, at_fetch) in &sc.panics {
-            b[*id] = if *at_fetch { Beh::PanicFetch(1) } else { Beh::PanicRun(1) };
+            // async scripts do not number their dispatches: the system panics whenever it runs
+            let d = if sc.script.is_some() { u16::MAX } else { 1 };
+            b[*id] = if *at_fetch { Beh::PanicFetch(d) } else { Beh::PanicRun(d) };
         }
         if !twin {
             if let Some((ids, k)) = &sc.rendezvous {
